@@ -131,7 +131,11 @@ type oblResult struct {
 }
 
 func solveAll(g *gen, dir string, timeout int, crossCheck bool, only func(*obligation) bool, par int) []oblResult {
-	base := g.emit(g.c.strMode)
+	return solveAllNA(g, dir, timeout, crossCheck, only, par, nil)
+}
+
+func solveAllNA(g *gen, dir string, timeout int, crossCheck bool, only func(*obligation) bool, par int, noAssume map[int]bool) []oblResult {
+	base := g.emitFull(g.c.strMode, false, noAssume)
 	baseStripped := ""
 	var todo []*obligation
 	for _, o := range g.obls {
@@ -141,7 +145,7 @@ func solveAll(g *gen, dir string, timeout int, crossCheck bool, only func(*oblig
 	}
 	for _, o := range todo {
 		if o.Kind == "smoke" {
-			baseStripped = g.emitOpt(g.c.strMode, true)
+			baseStripped = g.emitFull(g.c.strMode, true, noAssume)
 			break
 		}
 	}
